@@ -322,10 +322,11 @@ def phase_strace(c, bindir, hx, strace_cases):
               tr.Tool("gigaword_unwrap", [], big_gw, kind="iostream", label="gigaword_unwrap-big")]
     jobs = []
     clean = {}
+    strace_failures = []
     for t in tools:
         rc, out, calls = strace_run(t, bindir, hx)
         if rc != 0 or not calls:
-            c.broken.append("strace: clean run of %s failed (rc=%s, %d calls): ptrace not permitted?" % (t.label, rc, len(calls)))
+            strace_failures.append("%s rc=%s calls=%d" % (t.label, rc, len(calls)))
             continue
         clean[t.label] = (out, calls)
         for op in ("read", "write"):
@@ -337,6 +338,14 @@ def phase_strace(c, bindir, hx, strace_cases):
                 if (op == "read" and fd == 0) or (op == "write" and fd == 1):
                     for eno in ((5, 28, 32) if op == "write" else (5,)):
                         jobs.append((t, (op, ERRNO_NAMES[eno], idx), eno))
+
+    if strace_failures and not clean:
+        # ptrace is not available in this environment: say so instead of failing the check
+        c.assumptions.append("strace could not trace any tool here (%s): the k-th-system-call injection for the iostream tools was skipped; "
+                             "they are still exercised with /dev/full, RLIMIT_FSIZE at every byte, closed pipes and a directory on stdin" % strace_failures[0])
+        return
+    for f in strace_failures:
+        c.broken.append("strace: clean run failed: " + f)
 
     def work(j):
         t, inject, eno = j
